@@ -14,7 +14,7 @@ from mc import core, grammar, values
 
 ID = 'C13'
 META = {
-    'rule': "condition expressions = 53 atoms (val_range and len_range over all 16 (min,max) pairs each, Positive/Negative/NonNegative/"
+    'rule': "condition expressions = 61 atoms (val_range and len_range over all 16 (min,max) pairs each, Positive/Negative/NonNegative/"
             "NonPositive/Finite/Empty/NonEmpty, shape and broadcastable for 5 shapes incl. a list spelling, a raising predicate, a user "
             "predicate, a non-bool predicate) closed once (thorough: twice) under &, |, ~, Condition.all, Condition.any, plus 2-3 "
             "conditions on one Annotated; x inner types int/float/str/List[int]/Set[int]/Dict[str,int]/numpy.ndarray and element-level "
@@ -46,10 +46,23 @@ def atoms():
         out.append(['shape', s])
         out.append(['bcast', s])
     out += [['raises'], ['even'], ['nonbool']]
+    out += [['raises', n] for n in RAISERS]
     return out
 
 
-CORE_ATOMS = [['val_range', 0, 5], ['val_range', None, 2.5], ['val_range', 5, 0], ['len_range', 1, 2], ['len_range', None, 0],
+RAISERS = ['RuntimeError', 'AssertionError', 'OSError', 'StopIteration', 'KeyError', 'Custom', 'ZeroDivisionError', 'MemoryError']
+
+
+class CustomPredicateError(Exception):
+    pass
+
+
+def _raiser_class(name):
+    import builtins
+    return CustomPredicateError if name == 'Custom' else getattr(builtins, name)
+
+
+CORE_ATOMS = [['raises', 'RuntimeError'], ['val_range', 0, 5], ['val_range', None, 2.5], ['val_range', 5, 0], ['len_range', 1, 2], ['len_range', None, 0],
               ['pos'], ['nonneg'], ['neg'], ['finite'], ['empty'], ['nonempty'], ['raises'], ['even'], ['shape', [2]], ['bcast', [2, 2]],
               ['nonbool']]
 TRI_ATOMS = [['pos'], ['val_range', None, 5], ['raises'], ['nonempty'], ['even'], ['finite']]
@@ -117,8 +130,10 @@ def build_cond(A, e):
     if h == 'bcast':
         return A.broadcastable(shape_obj(e[1]))
     if h == 'raises':
-        def boom(v):
-            raise LookupError('predicate exploded')
+        exc = _raiser_class(e[1]) if len(e) > 1 else LookupError
+
+        def boom(v, _exc=exc):
+            raise _exc('predicate exploded')
         return A.Condition(boom, 'boom')
     if h == 'even':
         return A.Condition(lambda v: v % 2 == 0, 'even')
